@@ -782,8 +782,17 @@ class C18(Check):
             (root / "empty").mkdir(exist_ok=True)
             cwd = root.joinpath(*f[:-1])
             self.oracle_cases += 1
+            # everything is given to gcc by absolute path (a forced include that sits beside the unit - where gcc,
+            # run in the unit's directory, finds it first - is named by its absolute path), so every header gcc
+            # FOUND is printed with an absolute path; a missing one (assumed generated, -MG) is printed as requested
+            gargs = []
+            for x in args:
+                if x[0] == "F" and os.path.exists(os.path.join(cwd, pstr(x[1]))):
+                    gargs += ["-include", os.path.join(cwd, pstr(x[1]))]
+                else:
+                    gargs += render_args([x], str(root))
             try:
-                pr = subprocess.run(["gcc", "-M", "-MG", "-undef", "-nostdinc"] + render_args(args, str(root)) + [str(root.joinpath(*f))],
+                pr = subprocess.run(["gcc", "-M", "-MG", "-undef", "-nostdinc"] + gargs + [str(root.joinpath(*f))],
                                     cwd=cwd, capture_output=True, text=True, timeout=20)
             except subprocess.TimeoutExpired:      # unguarded mutual inclusion: gcc explores up to depth 200
                 self.oracle_skipped += 1
@@ -792,15 +801,8 @@ class C18(Check):
                 self.oracle_skipped += 1
                 continue
             deps = pr.stdout.replace("\\\n", " ").split(":", 1)[1].split()
-            # everything is given to gcc by absolute path, so a header it FOUND is printed with an absolute
-            # path; a missing one (assumed generated, -MG) is printed as requested
-            # (a forced include found in gcc's working directory - the unit's directory - is printed as given)
-            forced_found = {pstr(x[1]) for x in args if x[0] == "F" and os.path.exists(os.path.join(cwd, pstr(x[1])))}
-            missing = {d for d in deps if not os.path.isabs(d) and d not in forced_found}
+            missing = {d for d in deps if not os.path.isabs(d)}
             expected = {e[3] for e in sa[1] if e[0] == "missing-include"} | {e[2] for e in sa[1] if e[0] == "missing-forced"}
-            if forced_found & expected:
-                self.oracle_skipped += 1        # the same spelling is both found (forced, cwd) and missing: gcc's list cannot tell
-                continue
             if missing != expected:
                 self.oracle_bad.append({"case": c, "gcc_missing": sorted(missing), "spec_missing": sorted(expected)})
         if self.oracle_bad:
